@@ -537,10 +537,10 @@ enum Cur {
 }
 
 macro_rules! sec_next {
-    ($name:ident, $cur:expr, $prim:expr, $script:expr, $errpos:expr, $errseek:expr, |$r:ident, $has:ident| $post:block) => {
+    ($name:ident, $start:expr, $off:expr, $cur:expr, $prim:expr, $script:expr, $errpos:expr, $errseek:expr, |$r:ident, $has:ident| $post:block) => {
         io_harness! {
         fn $name() {
-            let start: u64 = kani::any();
+            let start: u64 = $start;
             let br = bufr(file_at(start, 64, &$script));
             unsafe { M.err_pos = $errpos; M.err_seek = $errseek; }
             let pbr = bufr(raw_file(0, 0));
@@ -553,7 +553,7 @@ macro_rules! sec_next {
                 Cur::Err => Some(Err(primary::Error::CannotReadPrimaryIndex(io_err()))),
                 Cur::Empty => Some(Ok(primary::Entry::Empty(kani::any()))),
                 Cur::Occ => {
-                    let o: u32 = kani::any();
+                    let o: u32 = $off;
                     kani::assume(o as u64 >= start);
                     Some(Ok(primary::Entry::Occupied(kani::any(), o)))
                 }
@@ -575,41 +575,54 @@ macro_rules! sec_next {
     };
 }
 // assume: primary offset current >= position of the secondary file (the excluded case current < start has its own harness c43_q_secondary_backwards)
-// bound: one Iterator::next step; `current` variant concrete per harness over {None, Err, Empty(any), Occupied(any slot, any u32 offset >= start)}, start any u64; 56-byte entry content arbitrary; read script concrete: one read / 20+36 / truncated / end of file / I/O error / failing position query / failing seek; primary reader behind it exhausted or in an (Ok, Ok) state with one more offset to read; unwind 9
-sec_next!(c43_q_sec_next_none, Cur::Non, (Slot::Non, Slot::Non), [56], false, false, |r, has| { assert!(r.is_none(), "no current entry: end"); kani::cover!(r.is_none(), "end"); });
-sec_next!(c43_q_sec_next_prim_err, Cur::Err, (Slot::Non, Slot::Non), [56], false, false, |r, has| { assert!(matches!(r, Some(Err(secondary::Error::PrimaryIndexError(_)))), "primary error forwarded"); kani::cover!(r.is_some(), "error"); });
-sec_next!(c43_q_sec_next_empty, Cur::Empty, (Slot::Non, Slot::Non), [56], false, false, |r, has| { assert!(r.is_none(), "an empty primary slot has no secondary entry"); kani::cover!(r.is_none(), "end"); });
-sec_next!(c43_q_sec_next_full, Cur::Occ, (Slot::Non, Slot::Non), [56], false, false, |r, has| {
-    assert!(matches!(r, Some(Ok(_)) | Some(Err(secondary::Error::CannotReadSecondaryIndex(_)))), "entry read, or the seek failed");
-    kani::cover!(matches!(r, Some(Ok(e)) if e.block_offset == u64::MAX), "entry with a wild block offset is passed on");
-    kani::cover!(matches!(r, Some(Err(_))), "seek beyond u64::MAX reported as an error");
-});
-sec_next!(c43_q_sec_next_split, Cur::Occ, (Slot::Non, Slot::Non), [20, 36], false, false, |r, has| {
-    kani::cover!(matches!(r, Some(Ok(_))), "entry read with two reads");
-});
-sec_next!(c43_q_sec_next_trunc, Cur::Occ, (Slot::Non, Slot::Non), [20], false, false, |r, has| {
-    assert!(matches!(r, Some(Err(_))), "truncated entry is an error");
-    kani::cover!(matches!(r, Some(Err(secondary::Error::InconsistentState))), "truncated secondary index = InconsistentState");
-});
-sec_next!(c43_q_sec_next_eof, Cur::Occ, (Slot::Non, Slot::Non), [], false, false, |r, has| {
-    assert!(matches!(r, Some(Err(_))), "missing entry is an error");
-    kani::cover!(matches!(r, Some(Err(secondary::Error::InconsistentState))), "secondary index shorter than the primary says = InconsistentState");
-});
-sec_next!(c43_q_sec_next_read_err, Cur::Occ, (Slot::Non, Slot::Non), [20, E], false, false, |r, has| {
-    assert!(matches!(r, Some(Err(secondary::Error::CannotReadSecondaryIndex(_)))), "I/O error reported");
+// bound: one Iterator::next step; `current` variant concrete per harness over {None, Err, Empty(any), Occupied(any slot, offset)}; symbolic family (_sym_): start any u64, offset any u32 >= start; concrete family: start 0x1000, offset 0x1038 (seek by 56) or 0x1000 (no seek); 56-byte entry content arbitrary; read script concrete: one read / 20+36 / truncated / end of file / I/O error / failing position query / failing seek; primary reader behind it exhausted or in an (Ok, Ok) state with one more offset to read; unwind 9
+sec_next!(c43_q_sec_next_none, kani::any(), kani::any(), Cur::Non, (Slot::Non, Slot::Non), [56], false, false, |r, has| { assert!(r.is_none(), "no current entry: end"); kani::cover!(r.is_none(), "end"); });
+sec_next!(c43_q_sec_next_prim_err, kani::any(), kani::any(), Cur::Err, (Slot::Non, Slot::Non), [56], false, false, |r, has| { assert!(matches!(r, Some(Err(secondary::Error::PrimaryIndexError(_)))), "primary error forwarded"); kani::cover!(r.is_some(), "error"); });
+sec_next!(c43_q_sec_next_empty, kani::any(), kani::any(), Cur::Empty, (Slot::Non, Slot::Non), [56], false, false, |r, has| { assert!(r.is_none(), "an empty primary slot has no secondary entry"); kani::cover!(r.is_none(), "end"); });
+sec_next!(c43_q_sec_next_sym_eof, kani::any(), kani::any(), Cur::Occ, (Slot::Non, Slot::Non), [], false, false, |r, has| {
+    assert!(matches!(r, Some(Err(secondary::Error::InconsistentState))), "secondary index shorter than the primary says = InconsistentState, for every forward offset");
     kani::cover!(r.is_some(), "error");
 });
-sec_next!(c43_q_sec_next_pos_err, Cur::Occ, (Slot::Non, Slot::Non), [56], true, false, |r, has| {
+sec_next!(c43_q_sec_next_sym_pos_err, kani::any(), kani::any(), Cur::Occ, (Slot::Non, Slot::Non), [56], true, false, |r, has| {
     assert!(matches!(r, Some(Err(secondary::Error::CannotReadSecondaryIndex(_)))), "failing position query reported");
     kani::cover!(r.is_some(), "error");
 });
-sec_next!(c43_q_sec_next_seek_err, Cur::Occ, (Slot::Non, Slot::Non), [56], false, true, |r, has| {
+sec_next!(c43_q_sec_next_sym_seek_err, kani::any(), kani::any(), Cur::Occ, (Slot::Non, Slot::Non), [], false, true, |r, has| {
     kani::cover!(matches!(r, Some(Err(secondary::Error::CannotReadSecondaryIndex(_)))), "failing seek reported");
-    kani::cover!(matches!(r, Some(Ok(_))), "no seek needed when the file is already at the offset");
+    kani::cover!(matches!(r, Some(Err(secondary::Error::InconsistentState))), "no seek needed when the file is already at the offset");
 });
-sec_next!(c43_q_sec_next_then_prim, Cur::Occ, (Slot::Ok, Slot::Ok), [56, 4], false, false, |r, has| {
-    kani::cover!(matches!(r, Some(Ok(_))) && has, "entry read and the next occupied primary slot loaded");
-    kani::cover!(matches!(r, Some(Ok(_))) && !has, "entry read, primary index has no further occupied slot");
+sec_next!(c43_t_sec_next_sym_full, kani::any(), kani::any(), Cur::Occ, (Slot::Non, Slot::Non), [56], false, false, |r, has| {
+    assert!(matches!(r, Some(Ok(_))), "entry read for every forward offset");
+    kani::cover!(matches!(r, Some(Ok(e)) if e.block_offset == u64::MAX), "entry with a wild block offset is passed on");
+});
+sec_next!(c43_q_sec_next_full, 0x1000, 0x1038, Cur::Occ, (Slot::Non, Slot::Non), [56], false, false, |r, has| {
+    assert!(matches!(r, Some(Ok(_))) && !has, "entry read, primary index exhausted");
+    kani::cover!(matches!(r, Some(Ok(e)) if e.block_offset == u64::MAX), "entry with a wild block offset is passed on");
+});
+sec_next!(c43_q_sec_next_noseek, 0x1000, 0x1000, Cur::Occ, (Slot::Non, Slot::Non), [56], false, true, |r, has| {
+    assert!(matches!(r, Some(Ok(_))), "entry read without a seek (a seek would have failed)");
+    kani::cover!(r.is_some(), "entry read");
+});
+sec_next!(c43_q_sec_next_split, 0x1000, 0x1038, Cur::Occ, (Slot::Non, Slot::Non), [20, 36], false, false, |r, has| {
+    assert!(matches!(r, Some(Ok(_))), "entry read with two reads");
+    kani::cover!(r.is_some(), "entry read");
+});
+sec_next!(c43_q_sec_next_trunc, 0x1000, 0x1038, Cur::Occ, (Slot::Non, Slot::Non), [20], false, false, |r, has| {
+    assert!(matches!(r, Some(Err(secondary::Error::InconsistentState))), "truncated secondary index = InconsistentState");
+    kani::cover!(r.is_some(), "error");
+});
+sec_next!(c43_q_sec_next_read_err, 0x1000, 0x1038, Cur::Occ, (Slot::Non, Slot::Non), [20, E], false, false, |r, has| {
+    assert!(matches!(r, Some(Err(secondary::Error::CannotReadSecondaryIndex(_)))), "I/O error reported");
+    kani::cover!(r.is_some(), "error");
+});
+sec_next!(c43_q_sec_next_seek_err, 0x1000, 0x1038, Cur::Occ, (Slot::Non, Slot::Non), [56], false, true, |r, has| {
+    assert!(matches!(r, Some(Err(secondary::Error::CannotReadSecondaryIndex(_)))), "failing seek reported");
+    kani::cover!(r.is_some(), "error");
+});
+sec_next!(c43_q_sec_next_then_prim, 0x1000, 0x1038, Cur::Occ, (Slot::Ok, Slot::Ok), [56, 4], false, false, |r, has| {
+    assert!(matches!(r, Some(Ok(_))), "entry read");
+    kani::cover!(has, "next occupied primary slot loaded");
+    kani::cover!(!has, "primary index has no further occupied slot");
 });
 
 /// Entry::from on 56 arbitrary bytes: field extraction is total and big-endian
